@@ -409,6 +409,7 @@ func (c *Channel) NewStream(ctx context.Context, desc *grpc.StreamDesc, method s
 		svrCtx:         svrDoneCtx,
 		requests:       requests,
 		responses:      responses,
+		requestStream:  desc.ClientStreams,
 		responseStream: desc.ServerStreams,
 		copts:          copts,
 	}
@@ -646,6 +647,7 @@ type inProcessClientStream struct {
 	cloner         Cloner
 	svrCtx         context.Context
 	copts          *internal.CallOptions
+	requestStream  bool
 	responseStream bool
 
 	respMu    sync.Mutex
@@ -730,7 +732,15 @@ func (s *inProcessClientStream) SendMsg(m interface{}) error {
 	if err != nil {
 		return err
 	}
-	return writeMessage(s.ctx, s.svrCtx, s.requests, frame{data: m})
+	err = writeMessage(s.ctx, s.svrCtx, s.requests, frame{data: m})
+	if err == io.EOF && !s.requestStream {
+		// Like grpc-go: generated code for a method with a single request
+		// returns the error of this SendMsg as the result of the whole call
+		// and hands out no stream. That the server has already finished is
+		// not a failure of the send; its status is what RecvMsg reports.
+		return nil
+	}
+	return internal.TranslateContextError(err)
 }
 
 func (s *inProcessClientStream) RecvMsg(m interface{}) error {
